@@ -230,7 +230,7 @@ theorem drawSample_goals (sp : Space σ δ) (s : St σ α δ) : (drawSample sp s
 
 theorem grow_facts {o : Obj σ α} (L : Laws2 o) (sp : Space σ δ) (s : St σ α δ) (nmotion : Nat) (nm : Motion σ α) (dstate : σ)
     (hT : StInv o s) (hnm : s.motions[nmotion]? = some nm)
-    (hcl : sp.delayCC = false → (growInsert o sp s nmotion nm dstate).st.staleInc = false) :
+    (hcl : sp.delayCC = false → sp.classicOld = true → (growInsert o sp s nmotion nm dstate).st.staleInc = false) :
     NotWorse o s.motions (grow o sp s nmotion nm dstate).1.motions ∧
     ((grow o sp s nmotion nm dstate).2.2 = false → EqCost s.motions (grow o sp s nmotion nm dstate).1.motions) ∧
     (grow o sp s nmotion nm dstate).1.motions.size = s.motions.size + 1 ∧
@@ -525,7 +525,7 @@ theorem finishIter_binv {o : Obj σ α} (L : Laws2 o) (sp : Space σ δ) (s r1 :
         exact ⟨gm1, hgm1, by rw [G.eq hchk' g gm gm1 hgm hgm1]; exact hc⟩
 
 theorem iterate_binv {o : Obj σ α} (L : Laws2 o) (sp : Space σ δ) (s : St σ α δ) (hT : StInv o s) (h : BInv o s)
-    (hcl : sp.delayCC = false → (iterate o sp s).staleInc = false) :
+    (hcl : sp.delayCC = false → sp.classicOld = true → (iterate o sp s).staleInc = false) :
     BInv o (iterate o sp s) := by
   unfold iterate at hcl ⊢
   have h0m : ({ s with iterations := s.iterations + 1, queries := [] } : St σ α δ).motions = s.motions := rfl
@@ -565,7 +565,7 @@ theorem iterate_binv {o : Obj σ α} (L : Laws2 o) (sp : Space σ δ) (s : St σ
           have h2 : BInv o s2 := BInv.of_same c1.1 c2 c3 h1
           have hT2 : StInv o s2 := ⟨by rw [c1.1]; exact hT1.1, by rw [c1.2]; exact hT1.2⟩
           have hf := grow_facts L sp s2 nmotion nm (steerTo sp nm rstate) hT2 (by rw [c1.1]; exact hnm)
-            (fun hd => by rw [← grow_finish_stale]; exact hcl hd)
+            (fun hd ho => by rw [← grow_finish_stale]; exact hcl hd ho)
           exact finishIter_binv L sp s2 _ _ _ _
             ⟨hf.1, hf.2.1, hf.2.2.1, hf.2.2.2.2, grow_sameBest o sp s2 nmotion nm (steerTo sp nm rstate)⟩ h2
 
@@ -573,7 +573,7 @@ theorem init_binv (o : Obj σ α) (sp : Space σ δ) : BInv o (St.init o sp : St
   ⟨rfl, fun g h => by simp [St.init] at h⟩
 
 theorem applyOp_binv {o : Obj σ α} (L : Laws2 o) (sp : Space σ δ) (s : St σ α δ) (op : Op σ δ) (hT : StInv o s) (h : BInv o s)
-    (hcl : sp.delayCC = false → (applyOp o sp s op).staleInc = false) :
+    (hcl : sp.delayCC = false → sp.classicOld = true → (applyOp o sp s op).staleInc = false) :
     BInv o (applyOp o sp s op) := by
   cases op with
   | start x =>
